@@ -77,7 +77,13 @@ def gen_case(rng, arm, tier, k=0):
             # a fold without any class-0 sample (e.g. 1-based labels): legal for every call
             # whose predictions stay within the labels' range
             Ym = [y + 1 for y in Ym]
-        mats.append({"style": style, "X": gen_matrix(rng, n, d, style), "Y": Ym, "layout": rng.choice(("c", "c", "c", "f", "strided", "cols"))})
+        Xm = gen_matrix(rng, n, d, style)
+        if mats and rng.random() < 0.3:
+            # a matrix with a few isolated rows far away from everything else
+            for i in range(n):
+                if rng.random() < 0.4:
+                    Xm[i] = [abs(v) * 40.0 + 90.0 for v in Xm[i]]
+        mats.append({"style": style, "X": Xm, "Y": Ym, "layout": rng.choice(("c", "c", "c", "f", "strided", "cols"))})
     vecs = []
     for _ in range(rng.randint(2, 4)):
         style = rng.choice(("zeros", "zeros", "positive", "generic"))
@@ -144,6 +150,9 @@ def gen_case(rng, arm, tier, k=0):
             ops.append(["prefit", rng.choice(("supervised", "knn", "unsup")), k, mk, rng.randint(1, mk), rng.random() < 0.6])
         elif arm == "mixed" and rng.random() < 0.12:
             ops.append([rng.choice(("mfit", "mfit", "mpredict")), rng.randrange(2), rng.randrange(len(mats)), rng.randrange(len(mats)), rng.random() < 0.5])
+            if ops[-1][0] == "mpredict" and rng.random() < 0.6:
+                # the same model object predicts again, other rows first
+                ops.append(["mpredict", ops[-1][1], ops[-1][2], rng.randrange(len(mats)), ops[-1][4]])
         elif r < 0.80:
             k, k2 = rng.randrange(len(mats)), rng.randrange(len(mats))
             ops.append(["prune", metric_for([mats[k]["style"], mats[k2]["style"]]), k, k2, rng.randint(1, 3)])
